@@ -173,6 +173,7 @@ fn budget(prop: &str, tier: &str, seed: u64, scale: f64) -> Budget {
             sweeps.push(sweeps::c05_short_streams(!quick, !quick && checked));
             sweeps.push(sweeps::c05_base256_lengths(seed, if quick { 600 } else { 1600 }));
             sweeps.push(sweeps::c05_eci_charset_bytes());
+            sweeps.push(sweeps::c05_long_streams());
             // all enumerations on both build profiles (C05 is stated for both)
             sweeps.push(sweeps::c05_string_path_streams());
             sweeps.push(sweeps::small_geometry("C05", if quick { 200 } else if checked { 1300 } else { 600 }, if quick { 40 } else { 150 }));
